@@ -248,3 +248,5 @@ ASSUMPTIONS = [
 OUTSIDE = ['names colliding with snapshot members', 'mutation that bypasses setattr/delattr '
            '(object.__setattr__, vars(snapshot) when a __dict__ exists)', 'trees deeper than 3 or wider than the '
            'bound', 'changes made to the map after the snapshot was taken']
+
+TECHNIQUE = 'bounded symbolic execution (symx/z3) over tree shapes and name kinds, mirror oracle'
